@@ -6,6 +6,12 @@ props=[json.loads(l) for l in open('/verif/properties.jsonl')]
 ids=[p['id'] for p in props]
 TB="trusted base: the gosym executor written for this task (validated by `gosym selftest` and by native replay of every counterexample), golang.org/x/tools/go/ssa v0.29.0, z3 4.8.12 / z3 5.1.0 / cvc5 1.0; environment stubs of DESIGN.md §3.6; bounds as listed in the evidence file"
 checks={
+ "C04": dict(level="model_checking", ref="§5 C04",
+   text="WLRecipe.Generate (with NewWordList, the separator closures, sfWrap and the nested CharRecipe.Generate) is executed from its SSA over a family of word lists, lengths, schemes and separators with every random draw an SMT variable, and compared with the specified draw structure: one draw over the Length positions for 'one', one fair coin per position for 'random', one draw over the whole normalised list per word, one fresh separator per gap whose characters are draws over the separator alphabet, no draw reused, and the trailing draws of the entropy query not influencing the tokens. With C01 this is uniform and independent choice. Lengths 64..66 are included because position sets kept in machine words break exactly there.",
+   technique="bounded symbolic execution of go/ssa + SMT (QF_BV) against the specified draw structure, native replay"),
+ "C05": dict(level="model_checking", ref="§5 C05",
+   text="Same exploration as C04 with the structural assertions on every returned password: exactly Length atoms, each the drawn word or - exactly at the positions the scheme selects - its title-cased form (strings.Title mapped over the word options of the symbolic draw), one separator token between adjacent atoms iff the separator is non-empty, none leading or trailing, String()/Atoms()/Separators() consistent. Boundary draws (last word, last position, empty separator) are values of symbolic variables.",
+   technique="bounded symbolic execution of go/ssa + SMT (QF_BV), native replay; one known finding (empty word in the list) reported as KNOWN-FINDING"),
  "C02": dict(level="model_checking", ref="§5 C02",
    text="CharRecipe.Generate, buildCharacterList, requireFilter and golang-set are executed from their SSA for every recipe of a stated family (class flags symbolic, custom strings with duplicates, overlaps and multi-byte characters) with every random draw an SMT variable. A reference sampler written in the harness (duplicate-free alphabet; whole-candidate rejection; token j = alphabet[draw j of the accepted attempt]) is compared on the same draw log: exactly Length draws per attempt, each over the whole alphabet, a candidate is rejected iff it misses a required set, nothing is fixed up or reused. With C01 (each draw uniform on [0,n)) this is the uniform distribution on the valid strings. All draw values, including the last index and every accept/reject pattern within MaxTrials, are covered by the solver verdicts.",
    technique="bounded symbolic execution of go/ssa + SMT (QF_BV) against a reference sampler, native replay"),
